@@ -468,6 +468,13 @@ spec fn superseded(jobs: Seq<NodeInfo>, id: Seq<char>) -> bool {
         && parts(id).contains(p) && jobs[i].job_id@ != id
 }
 
+/// no two present jobs produce the same output (enforced by the Python layer; a precondition of
+/// new_history's C18 clauses)
+spec fn parts_disjoint(jobs: Seq<NodeInfo>) -> bool {
+    forall|i: int, k: int, p: Seq<char>| 0 <= i < jobs.len() && 0 <= k < jobs.len() && i != k
+        && #[trigger] parts(jobs[i].job_id@).contains(p) ==> !#[trigger] parts(jobs[k].job_id@).contains(p)
+}
+
 /// C18: which records of the input history survive (before the records of present jobs are rewritten)
 spec fn keep_key(jobs: Seq<NodeInfo>, m: Map<String, usize>, dag: &GraphType, k: Seq<char>) -> bool {
     if str_contains_sep(k) {
@@ -1496,5 +1503,43 @@ impl<T: PPGEvaluatorStrategy> PPGEvaluator<T> {
         &&& j.state == JobState::Ephemeral(JobStateEphemeral::Running(ValidationStatus::Validated))
         &&& self.history@.contains_key(j.job_id)
         &&& self.strategy.altered(j.job_id@, "!!!"@, self.history@[j.job_id]@, new_output)
+    }
+}
+
+/// the assumed contract of the part -> owning job map (R8a) as one predicate
+spec fn multi_parts_ok(pm: &VerifPartsMap, jobs: Seq<NodeInfo>) -> bool {
+    &&& forall|p: Seq<char>| #![trigger pm.owner(p)] pm.owner(p) is Some ==> exists|i: int| 0 <= i < jobs.len()
+            && #[trigger] jobs[i].job_id@ == pm.owner(p).unwrap() && parts(jobs[i].job_id@).contains(p)
+    &&& forall|i: int, p: Seq<char>| 0 <= i < jobs.len() && #[trigger] parts(jobs[i].job_id@).contains(p) ==> pm.owner(p) is Some
+}
+
+proof fn lemma_superseded_by_owner(jobs: Seq<NodeInfo>, m: Map<String, usize>, pm: &VerifPartsMap, id: Seq<char>, p: Seq<char>)
+    requires multi_parts_ok(pm, jobs), parts(id).contains(p), pm.owner(p) is Some, pm.owner(p).unwrap() != id,
+    ensures superseded(jobs, id),
+{
+    let i = choose|i: int| 0 <= i < jobs.len() && #[trigger] jobs[i].job_id@ == pm.owner(p).unwrap() && parts(jobs[i].job_id@).contains(p);
+    assert(parts(jobs[i].job_id@).contains(p) && parts(id).contains(p) && jobs[i].job_id@ != id);
+}
+
+proof fn lemma_not_superseded(jobs: Seq<NodeInfo>, m: Map<String, usize>, pm: &VerifPartsMap, id: Seq<char>, s: Seq<&str>)
+    requires
+        multi_parts_ok(pm, jobs), parts_disjoint(jobs), ids_wf(jobs, m),
+        forall|p: Seq<char>| #![trigger parts(id).contains(p)] parts(id).contains(p) <==> exists|k: int| 0 <= k < s.len() && (#[trigger] s[k])@ == p,
+        forall|k: int| 0 <= k < s.len() ==> !(pm.owner((#[trigger] s[k])@) is Some && pm.owner(s[k]@).unwrap() != id),
+    ensures !superseded(jobs, id),
+{
+    broadcast use group_verif_axioms;
+    if superseded(jobs, id) {
+        let (i, p) = choose|i: int, p: Seq<char>| 0 <= i < jobs.len() && #[trigger] parts(jobs[i].job_id@).contains(p)
+            && parts(id).contains(p) && jobs[i].job_id@ != id;
+        let k = choose|k: int| 0 <= k < s.len() && (#[trigger] s[k])@ == p;
+        assert(pm.owner(p) is Some);
+        assert(pm.owner(p).unwrap() == id);
+        // then `id` itself is a present job sharing output p with the different present job i
+        let j = choose|j: int| 0 <= j < jobs.len() && #[trigger] jobs[j].job_id@ == pm.owner(p).unwrap() && parts(jobs[j].job_id@).contains(p);
+        assert(jobs[j].job_id@ != jobs[i].job_id@);
+        assert(i != j);
+        assert(parts(jobs[i].job_id@).contains(p));
+        assert(!parts(jobs[j].job_id@).contains(p));
     }
 }
